@@ -208,6 +208,8 @@ class Replay:
             view[i] = batch[0]
         elif op == 'setslice':
             view[(slice(i, i + k) if i >= 0 else slice(i, None))] = batch
+        elif op == 'setext':
+            view[::2] = batch
         elif op == 'extend':
             view.extend(batch)
         elif op == 'mset':
